@@ -181,7 +181,7 @@ class HistRunner {
     }
     opts.clear();
     io_reset();
-    if (!clean && getenv("VF_KEEP")) { std::string cmd = "rm -rf /tmp/vf-keep-hist; cp -r " + dir + " /tmp/vf-keep-hist"; if (system(cmd.c_str())) {} }
+    if ((!clean && getenv("VF_KEEP")) || getenv("VF_KEEP_ALWAYS")) { std::string cmd = "rm -rf /tmp/vf-keep-hist; cp -r " + dir + " /tmp/vf-keep-hist"; if (system(cmd.c_str())) {} }
     rm_rf(dir);
     for (auto &b : backups) rm_rf(b.path);
     backups.clear();
